@@ -1,4 +1,6 @@
 import GaeaVerif.Model.Crash
+import GaeaVerif.Lemmas.BufOwn
+import GaeaVerif.Lemmas.BufIso
 import GaeaVerif.Gen.Consts
 import GaeaVerif.Props.C12
 /-
@@ -31,6 +33,25 @@ import GaeaVerif.Props.C12
                                          for every variant of the decoders
     sessions_isolated                    in every interleaving of several connections each connection
                                          gets exactly what it would get alone, and the process lives
+  Second part (namespace GaeaVerif.C38.Own, about `Model/BufOwn.lean`): the
+  pooled packet buffers that all connections of the process share
+  (mysql.bufPool), for every interleaving of the atomic steps of any number of
+  sessions and every arrival of client bytes:
+    buffers_held_once                    no buffer is ever in the pool twice, held by two connections, or
+                                         held by a connection and in the pool — whatever program the
+                                         sessions run on top of mysql.Conn's ephemeral-buffer functions
+    recycled_buffer_never_read           with the programs of the repaired source (readHandshakeResponse,
+                                         handleHandshakeResponse, Session.Handshake, Session.Run) every
+                                         pooled buffer a session reads is the one its connection holds at
+                                         that moment: not in the pool, not held by anybody else
+    sessions_isolated_on_shared_buffers  hence, in every interleaving, everything a session lets the outside see
+                                         (decoded handshake, the auth response as the password check finds it,
+                                         answers, statements sent to the backend) is exactly what it shows when
+                                         it runs alone in a process of its own, on the same client bytes
+    pool_get_put_never_panic             bufPool.Get / Put never panic (the bucket exists, the buffer fits)
+    current_tree_*                       the same for the three decisions as the translator finds them
+    *_witness                            each of the three decisions matters (the repaired defects and the
+                                         seeded double put)
   Not proved here (`…_partial` in spirit, see tools/claimed/C38.json): absence of
   hangs and of Go-runtime fatal errors; the SQL layer behind `handleQuery`.
 -/
@@ -310,6 +331,17 @@ theorem bindFixed_good (pv : Bytes) (pos : Int) (w : Nat) (hp : 0 ≤ pos) : Val
     rw [C12.goSlice_ok pv pos (pos + w) (by omega)]
     simp only [ValGood]; omega
 
+theorem bindFloat_good (pv : Bytes) (pos : Int) (w : Nat) (hp : 0 ≤ pos) : ValGood pos (bindFloat pv pos w) := by
+  unfold bindFloat
+  split
+  · trivial
+  · rename_i h
+    rw [C12.goSlice_ok pv pos (pos + w) (by omega)]
+    simp only
+    split
+    · trivial
+    · simp only [ValGood]; omega
+
 theorem bindTemporal_good (v : Variant) (hd : v.dateGuard = true) (t : Temporal) (pv : Bytes) (pos : Int)
     (hp : 0 ≤ pos) : ValGood pos (bindTemporal v t pv pos) := by
   unfold bindTemporal
@@ -352,6 +384,7 @@ theorem bindValue_good (v : Variant) (hd : v.dateGuard = true) (tc : TypeClass) 
   cases tc with
   | null => simp [ValGood]
   | fixed w => exact bindFixed_good pv pos w hp
+  | float w => exact bindFloat_good pv pos w hp
   | temporal t => exact bindTemporal_good v hd t pv pos hp
   | str => exact bindStr_good pv pos hp
   | unknown => trivial
@@ -1096,3 +1129,237 @@ example : readHandshakeResponse [] ([0, 0x82, 0, 0, 0, 0, 0, 0, 33] ++ List.repl
 example : checkHashPassword ⟨false, false, false⟩ (List.replicate 20 0) (List.replicate 20 0) 40 = .ok () := by decide
 
 end GaeaVerif.C38
+
+
+/-!
+  ## The packet buffers all connections share (Model/BufOwn.lean)
+
+  `Sys.run cfg w evs` is any interleaving: `evs` names, step by step, which
+  session moves and how (an atomic action of its goroutine, the start of a
+  goroutine, the arrival of a header / of body bytes / of the end of its
+  client's stream).
+-/
+namespace GaeaVerif.C38.Own
+open GaeaVerif GaeaVerif.BufOwn
+
+/-- the three decisions as the current source takes them (translator, harness/extract/c38own.go) -/
+def treeVariant : Variant := ⟨Gen.c38CopySwitchResponse, Gen.c38CopyNullAuth, Gen.c38RecycleClears⟩
+
+/-- the constants of the bucket arithmetic are those of the source -/
+theorem pool_constants_match : minSize = Gen.c38MinPacketSize ∧ maxSize = Gen.maxPacketSize := by decide
+
+/-- `ExecuteCommand` hands the packet's bytes to the handlers as a copy (`string`, `copy`), as their
+    length, or to one of the three handlers that only read them while the command runs -/
+theorem execute_command_copies_the_packet :
+    ∀ u ∈ Gen.c38ExecuteCommandData, u.2 = "string" ∨ u.2 = "copy" ∨ u.2 = "len" ∨ u.2 = "se.handleFieldList" ∨
+      u.2 = "se.handleStmtClose" ∨ u.2 = "se.handleStmtReset" := by decide
+
+/-- **C38/C11 (every buffer has one holder).**  For every number of sessions,
+    every program they run on top of the ephemeral-buffer functions of
+    mysql.Conn and every interleaving, provided RecycleReadPacket clears the
+    pointer to the buffer it has put back: at every moment no bucket holds a
+    buffer twice, no two buckets hold the same buffer, a buffer a connection
+    holds is not in the pool and is large enough for the packet it was taken
+    for, and no two connections hold the same buffer. -/
+theorem buffers_held_once (cfg : Cfg) (hv : cfg.v.recycleClears = true) (n : Nat) (evs : List (Nat × Ev)) :
+    Own (Sys.run cfg (Sys.init n) evs).1 :=
+  run_own cfg hv (Sys.init n) (own_init n) evs
+
+/-- … spelled out for two connections and for a connection and the pool. -/
+theorem buffers_held_once' (cfg : Cfg) (hv : cfg.v.recycleClears = true) (n : Nat) (evs : List (Nat × Ev))
+    (i j : Nat) (s t : Sess) (x : Nat)
+    (hi : (Sys.run cfg (Sys.init n) evs).1.sess[i]? = some s) (hj : (Sys.run cfg (Sys.init n) evs).1.sess[j]? = some t)
+    (hx : s.conn.cur = some x) :
+    (i ≠ j → t.conn.cur ≠ some x) ∧ ¬ InPool (Sys.run cfg (Sys.init n) evs).1.mem x :=
+  have h := buffers_held_once cfg hv n evs
+  ⟨fun hij => h.distinct i j s t x hij hi hj hx, ((h.held i s hi).cur x hx).1⟩
+
+/-- **C38 (a recycled buffer is never read again).**  With the copies the
+    repaired source makes (auth switch response, NUL-terminated auth response)
+    and the pointer cleared by RecycleReadPacket, for every number of sessions
+    running the goroutines of the proxy (initial handshake, readHandshakeResponse,
+    the password check, Session.Handshake, Session.Run) in any interleaving and
+    with any client bytes: whenever a session's next step reads a pooled buffer
+    — the packet it has just read, or the auth response it has kept — that
+    buffer is the one its connection holds; it is not in the pool and no other
+    connection holds it, so nobody else can have written to it since the
+    session's own client filled it. -/
+theorem recycled_buffer_never_read (cfg : Cfg) (hv : cfg.v = Variant.fixed) (n : Nat) (evs : List (Nat × Ev))
+    (he : ∀ e ∈ evs, RealEv cfg e.2) (i : Nat) (s : Sess)
+    (hi : (Sys.run cfg (Sys.init n) evs).1.sess[i]? = some s) (id : Nat) (hid : id ∈ stepReads s) :
+    s.conn.cur = some id ∧ ¬ InPool (Sys.run cfg (Sys.init n) evs).1.mem id ∧
+    ∀ (j : Nat) (t : Sess), j ≠ i → (Sys.run cfg (Sys.init n) evs).1.sess[j]? = some t → t.conn.cur ≠ some id := by
+  have h1 : cfg.v.copySwitch = true := by rw [hv]; rfl
+  have h2 : cfg.v.copyNull = true := by rw [hv]; rfl
+  have h3 : cfg.v.recycleClears = true := by rw [hv]; rfl
+  have hg := run_good cfg h1 h2 (Sys.init n) (goodSys_init n) evs he i s hi
+  have ho := buffers_held_once cfg h3 n evs
+  have hc := good_reads_held hg id hid
+  exact ⟨hc, ((ho.held i s hi).cur id hc).1, fun j t hji hj => ho.distinct i j s t id (fun e => hji e.symm) hi hj hc⟩
+
+/-- … and what the session keeps of a handshake response is never a slice of a pooled buffer. -/
+theorem kept_auth_response_is_a_copy (cfg : Cfg) (hv : cfg.v = Variant.fixed) (n : Nat) (evs : List (Nat × Ev))
+    (he : ∀ e ∈ evs, RealEv cfg e.2) (i : Nat) (s : Sess)
+    (hi : (Sys.run cfg (Sys.init n) evs).1.sess[i]? = some s) : s.hs.buf = none := by
+  have h1 : cfg.v.copySwitch = true := by rw [hv]; rfl
+  have h2 : cfg.v.copyNull = true := by rw [hv]; rfl
+  exact (run_good cfg h1 h2 (Sys.init n) (goodSys_init n) evs he i s hi).noAlias
+
+/-- **C38 (a session's input never affects another session through the shared
+    packet buffers).**  With the repaired source, for every number of sessions
+    running the goroutines of the proxy in any interleaving of their atomic
+    steps and with any client bytes arriving in any fragmentation: what session
+    `j` lets the outside see — the decoded handshake response, the auth response
+    as the password check finds it, the answer to every command, the
+    statements it sends to the backend, the end of its goroutine — is, item by
+    item, what it shows in a process of its own that is given only `j`'s events
+    (`projEvs j evs`).  The sessions share the heap of packet buffers and the
+    buckets of mysql.bufPool, with sync.Pool's reuse order; the proof is a
+    simulation that survives because of `buffers_held_once` (nobody else writes
+    to a buffer a connection holds) and `recycled_buffer_never_read` (a session
+    looks at a buffer only while its connection holds it, after its own client
+    has filled the part it looks at). -/
+theorem sessions_isolated_on_shared_buffers (cfg : Cfg) (hv : cfg.v = Variant.fixed) (n j : Nat) (hj : j < n)
+    (evs : List (Nat × Ev)) (he : ∀ e ∈ evs, RealEv cfg e.2) :
+    obsFor j (Sys.run cfg (Sys.init n) evs).2 = obsFor 0 (Sys.run cfg (Sys.init 1) (projEvs j evs)).2 :=
+  sim_run cfg hv j evs _ _ (sim_init n j hj) he
+
+/-- **bufPool.Get and bufPool.Put never panic** in any state an interleaving
+    reaches: the bucket `findPool` selects exists, a pooled buffer is as large
+    as its bucket and the bucket is large enough for the requested size
+    (`findPool_fits`), and a buffer that is put back is one the heap knows. -/
+theorem pool_get_put_never_panic (cfg : Cfg) (hv : cfg.v.recycleClears = true) (n : Nat) (evs : List (Nat × Ev)) :
+    (∀ size, ∃ r, poolGet (Sys.run cfg (Sys.init n) evs).1.mem size = some r) ∧
+    (∀ (i : Nat) (s : Sess) (x : Nat), (Sys.run cfg (Sys.init n) evs).1.sess[i]? = some s → s.conn.cur = some x →
+      ∃ m', poolPut (Sys.run cfg (Sys.init n) evs).1.mem x = some m') := by
+  have h := buffers_held_once cfg hv n evs
+  refine ⟨fun size => poolGet_some h.pool size, fun i s x hi hx => ?_⟩
+  obtain ⟨_, b, hb, _⟩ := (h.held i s hi).cur x hx
+  exact poolPut_some h.pool (List.getElem?_eq_some_iff.mp hb).1
+
+/-! ### the current tree -/
+
+theorem current_tree_is_repaired : treeVariant = Variant.fixed := by decide
+
+/-- `buffers_held_once` for the source as it is. -/
+theorem current_tree_buffers_held_once (cfg : Cfg) (hc : cfg.v = treeVariant) (n : Nat) (evs : List (Nat × Ev)) :
+    Own (Sys.run cfg (Sys.init n) evs).1 :=
+  buffers_held_once cfg (by rw [hc]; decide) n evs
+
+/-- `recycled_buffer_never_read` for the source as it is. -/
+theorem current_tree_recycled_buffer_never_read (cfg : Cfg) (hc : cfg.v = treeVariant) (n : Nat) (evs : List (Nat × Ev))
+    (he : ∀ e ∈ evs, RealEv cfg e.2) (i : Nat) (s : Sess)
+    (hi : (Sys.run cfg (Sys.init n) evs).1.sess[i]? = some s) (id : Nat) (hid : id ∈ stepReads s) :
+    s.conn.cur = some id ∧ ¬ InPool (Sys.run cfg (Sys.init n) evs).1.mem id ∧
+    ∀ (j : Nat) (t : Sess), j ≠ i → (Sys.run cfg (Sys.init n) evs).1.sess[j]? = some t → t.conn.cur ≠ some id :=
+  recycled_buffer_never_read cfg (by rw [hc]; exact current_tree_is_repaired) n evs he i s hi id hid
+
+/-- `sessions_isolated_on_shared_buffers` for the source as it is. -/
+theorem current_tree_sessions_isolated_on_shared_buffers (cfg : Cfg) (hc : cfg.v = treeVariant) (n j : Nat) (hj : j < n)
+    (evs : List (Nat × Ev)) (he : ∀ e ∈ evs, RealEv cfg e.2) :
+    obsFor j (Sys.run cfg (Sys.init n) evs).2 = obsFor 0 (Sys.run cfg (Sys.init 1) (projEvs j evs)).2 :=
+  sessions_isolated_on_shared_buffers cfg (by rw [hc]; exact current_tree_is_repaired) n j hj evs he
+
+/-! ### witnesses: each of the three decisions matters -/
+
+/-- a configuration for the witnesses: server plugin "", every user known, none hashed -/
+def wCfg (v : Variant) : Cfg :=
+  { v := v, cv := ⟨true, true, true⟩, plugin := [], allowed := [], known := fun _ => true, hashed := fun _ => false, versionLen := 11 }
+
+/-- handshake response: protocol 4.1 + secure connection + plugin auth, user `u`, empty auth response, plugin `x`
+    (not the server's: the server asks the client to switch) -/
+def wSwitchHs : Bytes := [0x00, 0x82, 0x08, 0x00, 0, 0, 0, 1, 33] ++ List.replicate 23 0 ++ [0x75, 0, 0, 0x78, 0]
+/-- handshake response without CLIENT_SECURE_CONNECTION: the auth response `aa ab` is NUL-terminated -/
+def wNullHs : Bytes := [0x00, 0x02, 0x00, 0x00, 0, 0, 0, 1, 33] ++ List.replicate 23 0 ++ [0x75, 0, 2, 0xaa, 0xab, 0]
+/-- COM_STMT_CLOSE of statement 7: a command that is not answered -/
+def wClose : Bytes := [25, 7, 0, 0, 0]
+
+/-- the observations of a script (the schedules of the harness) -/
+def obsOf (cfg : Cfg) (n : Nat) (ops : List (Nat × Op)) : List (List Obs) :=
+  (runScript cfg (Sys.init n) (List.replicate n none) ops).map (·.1)
+
+/-- The defect repaired by 184812e: when the auth switch response is kept as a
+    slice of the packet buffer, the password check of session 0 sees the bytes
+    another session's client sent in between (`ee ef`), not its own (`aa ab`). -/
+theorem auth_switch_alias_witness :
+    obsOf (wCfg ⟨false, true, true⟩) 2
+      [(0, .resp), (0, .pkt wSwitchHs), (0, .pkt [0xaa, 0xab]), (1, .run), (1, .pkt [0xee, 0xef]), (0, .check)]
+    = [[.blocked], [.blocked], [.doneResp (.info ⟨557568, 33, [0x75], [0xaa, 0xab], [], []⟩)], [.blocked],
+       [.resp (.err .unknowncmd), .blocked], [.doneCheck (some [0xee, 0xef])]] := by decide +kernel
+
+/-- … and with the copy it sees its own. -/
+theorem auth_switch_repaired :
+    obsOf (wCfg Variant.fixed) 2
+      [(0, .resp), (0, .pkt wSwitchHs), (0, .pkt [0xaa, 0xab]), (1, .run), (1, .pkt [0xee, 0xef]), (0, .check)]
+    = [[.blocked], [.blocked], [.doneResp (.info ⟨557568, 33, [0x75], [0xaa, 0xab], [], []⟩)], [.blocked],
+       [.resp (.err .unknowncmd), .blocked], [.doneCheck (some [0xaa, 0xab])]] := by decide +kernel
+
+/-- The defect repaired by 89c3059: a NUL-terminated auth response kept as a
+    slice of the packet buffer is overwritten by another session's packet. -/
+theorem null_auth_alias_witness :
+    obsOf (wCfg ⟨true, false, true⟩) 2
+      [(0, .resp), (0, .pkt wNullHs), (1, .run), (1, .pkt (List.replicate 40 0xee)), (0, .check)]
+    = [[.blocked], [.doneResp (.info ⟨512, 33, [0x75], [0xaa, 0xab], [], []⟩)], [.blocked],
+       [.resp (.err .unknowncmd), .blocked], [.doneCheck (some [0xee, 0xee])]] := by decide +kernel
+
+theorem null_auth_repaired :
+    obsOf (wCfg Variant.fixed) 2
+      [(0, .resp), (0, .pkt wNullHs), (1, .run), (1, .pkt (List.replicate 40 0xee)), (0, .check)]
+    = [[.blocked], [.doneResp (.info ⟨512, 33, [0x75], [0xaa, 0xab], [], []⟩)], [.blocked],
+       [.resp (.err .unknowncmd), .blocked], [.doneCheck (some [0xaa, 0xab])]] := by decide +kernel
+
+/-- the state a script leaves -/
+def stateOf (cfg : Cfg) (n : Nat) (ops : List (Nat × Op)) : Option Sys :=
+  ((runScript cfg (Sys.init n) (List.replicate n none) ops).getLast?).map (·.2)
+
+/-- If RecycleReadPacket kept the pointer to the buffer it has put back, a
+    command without answer followed by a zero-length packet would put the
+    buffer into the pool a second time … -/
+theorem double_put_witness :
+    (stateOf (wCfg ⟨true, true, false⟩) 1 [(0, .run), (0, .pkt wClose), (0, .pkt [])]).map (fun w => free w.mem)
+      = some [0, 0] := by decide +kernel
+
+/-- … and two other sessions would then read their packets into the same
+    buffer: session 1 has sent `16 73 65` of a COM_STMT_PREPARE "se1" when
+    session 2's COM_QUERY arrives; what session 1 executes is session 2's
+    command byte with its own last byte. -/
+theorem double_put_crosses_sessions_witness :
+    (obsOf (wCfg ⟨true, true, false⟩) 3
+      [(0, .run), (0, .pkt wClose), (0, .pkt []), (1, .run), (2, .run),
+       (1, .part [22, 0x73, 0x65, 0x31] 3), (2, .pkt [3, 0x73, 0x65, 0x32]), (1, .rest)]).getLast?
+    = some [.resp .q, .blocked] := by decide +kernel
+
+/-- … whereas the source as it is answers session 1's prepare. -/
+theorem double_put_repaired :
+    (obsOf (wCfg Variant.fixed) 3
+      [(0, .run), (0, .pkt wClose), (0, .pkt []), (1, .run), (2, .run),
+       (1, .part [22, 0x73, 0x65, 0x31] 3), (2, .pkt [3, 0x73, 0x65, 0x32]), (1, .rest)]).getLast?
+    = some [.resp (.prep 0 0), .blocked] ∧
+    (stateOf (wCfg Variant.fixed) 1 [(0, .run), (0, .pkt wClose), (0, .pkt [])]).map (fun w => free w.mem) = some [0] := by
+  decide +kernel
+
+/-! ### non-vacuity -/
+
+/-- the invariant holds initially and in a state with a buffer held and a buffer pooled -/
+example : Own (Sys.init 3) := own_init 3
+example : (stateOf (wCfg Variant.fixed) 2 [(0, .run), (1, .run), (1, .part [3, 0x73] 1), (0, .pkt [14])]).map
+    (fun w => (owned w.sess, free w.mem)) = some ([0], [1]) := by decide +kernel
+/-- `recycled_buffer_never_read` speaks about states in which a step does read a buffer: Session.Run
+    about to look at a packet it has read into buffer 0 -/
+example : (Sys.run (wCfg Variant.fixed) (Sys.init 1)
+    [(0, .start progRun), (0, .tick), (0, .tick), (0, .hdr 1), (0, .body [14])]).1.sess.map stepReads = [[0]] := by decide +kernel
+/-- its hypotheses are satisfiable: every event of that run is a `RealEv` -/
+example : ∀ e ∈ [((0 : Nat), Ev.start progRun), (0, .tick), (0, .tick), (0, .hdr 1), (0, .body [14])],
+    RealEv (wCfg Variant.fixed) e.2 := by
+  intro e he
+  simp only [List.mem_cons, List.mem_nil_iff, or_false] at he
+  rcases he with rfl | rfl | rfl | rfl | rfl <;> simp [RealEv, RealProg]
+/-- `sessions_isolated_on_shared_buffers` on a run in which session 1 observes something while session 0 is in
+    the middle of a packet: both sides are the non-empty list `[resp ok]` -/
+example : obsFor 1 (Sys.run (wCfg Variant.fixed) (Sys.init 2)
+    [(0, .start progRun), (1, .start progRun), (0, .tick), (0, .tick), (1, .tick), (1, .tick), (0, .hdr 2), (0, .body [3]),
+     (1, .hdr 1), (1, .body [14]), (1, .tick)]).2 = [.resp .ok] := by decide +kernel
+/-- the current tree satisfies the premises -/
+example : treeVariant.recycleClears = true := by decide
+
+end GaeaVerif.C38.Own
